@@ -33,6 +33,7 @@ type Result struct {
 	Funcs      []string                     `json:"functions_encoded"`
 	Outcomes   int                          `json:"outcomes"`
 	Params     map[string]string            `json:"params"`
+	SplitGaps  []string                     `json:"split_gaps"`
 }
 
 var harnessParams = map[string]string{}
@@ -145,6 +146,10 @@ func main() {
 		if _, ok := e.covers[l]; !ok {
 			res.CoverMiss = append(res.CoverMiss, l)
 		}
+	}
+	res.SplitGaps = splitGaps()
+	for _, g := range res.SplitGaps {
+		e.undecided = append(e.undecided, "case split value never explored: "+g)
 	}
 	res.Undecided = e.undecided
 	res.Notes = e.notes
